@@ -502,6 +502,9 @@ func (tt *TermTable) FBin(op string, a, b *Term) *Term {
 			return tt.FP(64, x/y)
 		}
 	}
+	if (op == "fp.add" || op == "fp.mul") && a.id > b.id {
+		a, b = b, a // IEEE addition and multiplication commute
+	}
 	return tt.intern(op+" RNE", a.sort, a, b)
 }
 
